@@ -26,9 +26,13 @@ Definition q_mismatches := mismatches_with check_qcase.
 (* ---------------- loop cases ---------------- *)
 From HS Require Export EventLoop.LoopModel.
 
-(* handler bodies are given as a table indexed by handler id *)
-Definition script_of (tbl : list (list action)) (h : hid) (_ : event) : list action :=
-  nth (N.to_nat h) tbl [].
+(* handler bodies are given as a table indexed by handler id; ids >= 1000 are the handlers that
+   ViewContext / TimeoutContext (context.go) register themselves: their bodies come from a second
+   table, and their invocations cannot be observed by the harness (they are filtered out below;
+   what they do -- calling unregister closures -- is observed through its consequences) *)
+Definition ctx_base : N := 1000%N.
+Definition script_of (tbl ctbl : list (list action)) (h : hid) (_ : event) : list action :=
+  if N.leb ctx_base h then nth (N.to_nat (h - ctx_base)) ctbl [] else nth (N.to_nat h) tbl [].
 
 Definition event_eqb (a b : event) : bool := N.eqb (fst a) (fst b) && N.eqb (snd a) (snd b).
 Definition entry_eqb (a b : entry) : bool :=
@@ -39,15 +43,22 @@ Definition entry_eqb (a b : entry) : bool :=
   | _, _ => false
   end.
 
-(* capacity, handler table, program, observed trace (handler calls, drop warnings, Tick results) *)
-Definition lcase := (nat * list (list action) * list op * list entry)%type.
+Definition observable_h (x : entry) : bool :=
+  match x with
+  | LHandle _ _ h _ => N.ltb h ctx_base
+  | LDrop _ | LTick _ => true
+  | _ => false
+  end.
+
+(* capacity, handler table, context-handler table, program, observed trace (handler calls, drop warnings, Tick results) *)
+Definition lcase := (nat * list (list action) * list (list action) * list op * list entry)%type.
 Definition loop_fuel := 12%nat.
 Definition check_lcase (c : lcase) : bool :=
-  let '(cap, tbl, prog, obs) := c in
+  let '(cap, tbl, ctbl, prog, obs) := c in
   match new_loop cap with
   | Ok st0 =>
-      match run (script_of tbl) loop_fuel st0 prog with
-      | Some st => list_eqb entry_eqb (filter observable (log st)) obs
+      match run (script_of tbl ctbl) loop_fuel st0 prog with
+      | Some st => list_eqb entry_eqb (filter observable_h (log st)) obs
       | None => false
       end
   | _ => false
